@@ -186,14 +186,18 @@ def farErr : List FarChild → Bool
 def getFAR (link seid id : Nat) : Req :=
   { cmd := gtp5gnl.CMD_GET_FAR, flags := flPlain, attrs := oidAttrs link (u32 gtp5gnl.FAR_ID id) gtp5gnl.FAR_SEID seid }
 
-/-- `UpdateFAR`: each Apply Action child calls `applyAction(lSeid, farid-so-far, …)`, whose first act is a GET_FAR -/
-def farGets (link seid : Nat) : List FarChild → Nat → List Req
-  | [], _ => []
-  | .farid v :: cs, _ => farGets link seid cs v
-  | .aa b :: cs, cur => match applyUnmarshal b with
-    | some _ => getFAR link seid cur :: farGets link seid cs cur
-    | none => []
-  | _ :: cs, cur => farGets link seid cs cur
+/-- the Apply Action words of the IE, in order -/
+def farActs : List FarChild → List (BitVec 16)
+  | [] => []
+  | .aa b :: cs => match applyUnmarshal b with
+    | some w => w :: farActs cs
+    | none => farActs cs
+  | _ :: cs => farActs cs
+
+/-- `UpdateFAR`: after the loop, each Apply Action calls `applyAction(lSeid, farid, …)` — with the FAR id the IE
+    names — whose first act is a GET_FAR -/
+def farGets (link seid : Nat) (cs : List FarChild) : List Req :=
+  (farActs cs).map fun _ => getFAR link seid (farId cs 0)
 
 def farReq (link seid : Nat) (fl : Nat) (cs : List FarChild) : Req :=
   { cmd := gtp5gnl.CMD_ADD_FAR, flags := fl,
@@ -206,7 +210,7 @@ def createFAR (link seid : Nat) (cs : List FarChild) : Res :=
   if farErr cs then (false, []) else (true, [farReq link seid flCreate cs])
 
 def updateFAR (link seid : Nat) (cs : List FarChild) : Res :=
-  if farErr cs then (false, farGets link seid cs 0) else (true, farGets link seid cs 0 ++ [farReq link seid flUpdate cs])
+  if farErr cs then (false, []) else (true, farGets link seid cs ++ [farReq link seid flUpdate cs])
 
 /-! ### QER -/
 
@@ -326,8 +330,9 @@ inductive BarChild
   | sbpc (v : Nat)
 deriving Inhabited
 
-/-- the value handed to `nl.AttrU8` for a Downlink Data Notification Delay of `v` × 50 ms -/
-def ddndAttrVal (v : Nat) : Nat := v * 50000000   -- `nl.AttrU8(time.Duration)`: low 8 bits of the nanoseconds
+/-- the value handed to `nl.AttrU8` for a Downlink Data Notification Delay of `v` × 50 ms: `v / (50 * time.Millisecond)`,
+    the IE's octet (before the repair it was the low byte of the nanoseconds, `v * 50000000`) -/
+def ddndAttrVal (v : Nat) : Nat := v * 50000000 / 50000000
 
 def barChildAttrs : BarChild → List Attr
   | .barid _ => []
